@@ -142,6 +142,14 @@ class simulatedQubit(pb.Referenceable):
         self._apply_random_pauli_noise()
         self.register.apply_K(self.num)
 
+    def remote_apply_S(self):
+        """
+        Apply S (phase) gate.
+        """
+        self._logger.debug("VIRTUAL NODE %s: applying S to number %d", self.node.name, self.num)
+        self._apply_random_pauli_noise()
+        self.register.apply_S(self.num)
+
     def remote_apply_Y(self):
         """
         Apply Y gate.
